@@ -689,10 +689,127 @@ pub fn parse_histories(worker: usize, workers: usize, sink: &mut Sink) {
     sink.add("parse_history_parses", n);
 }
 
+/// The printed form under the formatter's own options: width, fill, alignment, sign and zero flags, the
+/// alternate flag, and the Debug forms inherited from a container. A `Display` impl may honour width and
+/// fill or ignore them, but the symbols of the notation must stay together: with the fill characters
+/// (and the container's brackets, commas and white space) trimmed off, the text must parse back to the value.
+pub fn display_under_format_options(sink: &mut Sink) {
+    fn forms<T: std::fmt::Display + std::fmt::Debug + Clone>(v: &T) -> Vec<(&'static str, String)> {
+        vec![
+            ("{:<6}", format!("{:<6}", v)),
+            ("{:>6}", format!("{:>6}", v)),
+            ("{:^7}", format!("{:^7}", v)),
+            ("{:*<5}", format!("{:*<5}", v)),
+            ("{:*>8}", format!("{:*>8}", v)),
+            ("{:+}", format!("{:+}", v)),
+            ("{:04}", format!("{:04}", v)),
+            ("{:+06}", format!("{:+06}", v)),
+            ("{:#}", format!("{:#}", v)),
+            ("{:2}", format!("{:2}", v)),
+            ("{:<6?}", format!("{:<6?}", v)),
+            ("{:#?}", format!("{:#?}", v)),
+            ("{:04?}", format!("{:04?}", v)),
+            ("vec {:5?}", format!("{:5?}", vec![v.clone(), v.clone()])),
+            ("vec {:#?}", format!("{:#?}", vec![v.clone()])),
+            ("option {:>7?}", format!("{:>7?}", Some(v.clone()))),
+        ]
+    }
+    fn tokens(text: &str) -> Vec<String> {
+        // what is left when fill characters and container punctuation are taken away
+        text.replace("Some", " ").split(|c: char| c.is_whitespace() || "*[](),".contains(c)).filter(|t| !t.is_empty()).map(|t| t.to_string()).collect()
+    }
+    let t = tables();
+    let mut n = 0u64;
+    let mut fail = |sink: &mut Sink, what: &str, spec: &str, got: &str| {
+        let w = format!("{} formatted with {} gives {:?}", what, spec, got);
+        let sig = format!("C16|notation_broken_by_format_options|{}|{}", what, spec);
+        sink.violate("C16", "notation_broken_by_format_options", sig, w.clone(), json!({"kind": "value", "what": w}));
+    };
+    for c in 0..263u16 {
+        let a = t.act_by_code[c as usize];
+        let text = code_text(c);
+        match guard("action round trip", || forms(&a)) {
+            Err(p) => fail(sink, &text, "(panicked)", &format!("site={} msg={:?}", p.site, p.msg)),
+            Ok(fs) => {
+                for (spec, got) in fs {
+                    n += 1;
+                    let toks = tokens(&got);
+                    if toks.is_empty() || toks.iter().any(|k| k.parse::<Action>().ok() != Some(a)) {
+                        fail(sink, &text, spec, &got);
+                    }
+                }
+            }
+        }
+    }
+    for i in 0..64usize {
+        let sq = Square::from_index(i as u8);
+        let text = sq_text(i);
+        match guard("square conversions", || forms(&sq)) {
+            Err(p) => fail(sink, &text, "(panicked)", &format!("site={} msg={:?}", p.site, p.msg)),
+            Ok(fs) => {
+                for (spec, got) in fs {
+                    n += 1;
+                    let toks = tokens(&got);
+                    if toks.is_empty() || toks.iter().any(|k| k.parse::<Square>().ok() != Some(sq)) {
+                        fail(sink, &text, spec, &got);
+                    }
+                }
+            }
+        }
+    }
+    sink.add("prints_under_format_options", n);
+}
+
+/// Everything printed once more on a thread that has never printed anything, after all other work of the
+/// check is over (whatever the printers keep per thread or per process must not make a late-comer's text differ).
+pub fn late_thread_prints(sink: &mut Sink) {
+    let t = tables();
+    let acts: Vec<Action> = (0..263u16).map(|c| t.act_by_code[c as usize]).collect();
+    let texts: Vec<String> = (0..263u16).map(code_text).collect();
+    for round in 0..3usize {
+        let acts2 = acts.clone();
+        let r = std::thread::spawn(move || {
+            std::panic::catch_unwind(move || {
+                let mut out: Vec<(usize, String)> = Vec::new();
+                // three different orders: downwards, every 7th, upwards
+                for k in 0..263usize {
+                    let i = match round {
+                        0 => 262 - k,
+                        1 => (k * 7) % 263,
+                        _ => k,
+                    };
+                    out.push((i, acts2[i].to_string()));
+                }
+                let sq: Vec<String> = (0..64usize).rev().map(|i| Square::from_index(i as u8).to_string()).collect();
+                (out, sq)
+            })
+        })
+        .join();
+        match r {
+            Ok(Ok((out, sq))) => {
+                for (i, got) in out {
+                    sink.count("late_thread_prints");
+                    if got != texts[i] {
+                        string_violation(sink, "C16", "printed_text_depends_on_previous_prints", "Action", &texts[i], format!("printed on a fresh thread after all other prints of the check as {:?}", got));
+                    }
+                }
+                for (k, got) in sq.iter().enumerate() {
+                    sink.count("late_thread_prints");
+                    if *got != sq_text(63 - k) {
+                        string_violation(sink, "C16", "printed_text_depends_on_previous_prints", "Square", &sq_text(63 - k), format!("printed on a fresh thread after all other prints of the check as {:?}", got));
+                    }
+                }
+            }
+            _ => string_violation(sink, "C16", "printer_panicked", "Action", "(all values)", "on a fresh thread after all other prints of the check".to_string()),
+        }
+    }
+}
+
 pub fn run_w10(random_n: u64, seed: u64, worker: usize, workers: usize, sink: &mut Sink) {
     unicode_position_sweep(worker, workers, sink);
     if worker == 0 {
         judge_value_spaces(sink);
+        display_under_format_options(sink);
     }
     display_triples(worker, workers, sink);
     display_into_failing_sinks(worker, workers, sink);
